@@ -306,3 +306,7 @@ class C03(core.Prop):
 
 
 PROP = C03()
+
+# shape families added after the first complete pass (DESIGN 8.6-8.11); appended to the bounds written into the evidence
+BOUNDS_ADDED = '; plus: unit drive with bead fragments (all_atom=False), a single-hydrogen fragment mid-chain, label lengths up to 4, pipeline cases through from_fragment_dicts / from_graph with independent partner labels under legacy=False'
+PROP.BOUNDS = {k: v + BOUNDS_ADDED for k, v in PROP.BOUNDS.items()}
